@@ -4,7 +4,7 @@ from __future__ import annotations
 
 import ast
 
-from ..astutil import attr_chain, call_attr, calls_in, guard_facts, unparse, walk_local
+from ..astutil import attr_chain, call_attr, calls_in, expand_value_calls, guard_facts, unparse, walk_local
 from ..cfg import CFG
 from ..dataflow import reaching_defs, resolved_text
 from ..report import Finding, Report
@@ -391,29 +391,62 @@ def check_dominance(idx: Index, rep: Report) -> None:
         r.ok(f.fq + ":meet", f"{f.loc} dom[{b}] = {{{b}}} | ∩ dom[p], p ∈ pred[{b}]")
     else:
         r.fail(f.fq + ":meet", Finding("C24.R3", f.fq, "meet", f"dominator update `{vt}` is not `{{b}} | intersection(dom[p] for p in pred[b])`", f.loc))
-    # queries
+    # queries (judged on what the returned expressions denote, under the guards of each return)
+    def _returns(fi):
+        c_ = CFG(fi.node)
+        out = []
+        for rt in [n for n in walk_local(fi.node) if isinstance(n, ast.Return) and n.value is not None]:
+            out.append((expand_value_calls(fi.module, resolved_text(c_, rt.value, c_.node_of(rt))), [(unparse(t), p_) for t, p_ in guard_facts(fi.node, rt)], rt))
+        return out
+
+    def _not_same(facts, a, bb) -> bool:
+        return (f"{a} is {bb}", False) in facts or (f"{a} is not {bb}", True) in facts or (f"{bb} is {a}", False) in facts or (f"{a} == {bb}", False) in facts or (f"{a} != {bb}", True) in facts
+
+    def _same(facts, a, bb) -> bool:
+        return (f"{a} is {bb}", True) in facts or (f"{a} is not {bb}", False) in facts or (f"{a} == {bb}", True) in facts
+
+    dm = idx.func(DOM, "DominanceInfo.dominates")
+    a, bb = dm.node.args.args[1].arg, dm.node.args.args[2].arg
+    rets = _returns(dm)
+    if rets and all(t == f"{a} in self._dominance[{bb}]" for t, _, _ in rets):
+        r.ok(dm.fq)
+    else:
+        r.fail(dm.fq, Finding("C24.R3", dm.fq, "dominates", f"dominates(a, b) must be `a in self._dominance[b]`, found `{'; '.join(t for t, _, _ in rets)}`", dm.loc))
+    DOMQ = lambda a_, b_: {f"self.dominates({a_}, {b_})", f"{a_} in self._dominance[{b_}]"}
     sd = idx.func(DOM, "DominanceInfo.strictly_dominates")
     a, bb = sd.node.args.args[1].arg, sd.node.args.args[2].arg
-    body = [unparse(s) for s in sd.node.body if not (isinstance(s, ast.Expr) and isinstance(s.value, ast.Constant))]
-    if body == [f"if {a} is {bb}:\n    return False", f"return self.dominates({a}, {bb})"] or body == [f"return {a} is not {bb} and self.dominates({a}, {bb})"]:
+    ok = True
+    rets = _returns(sd)
+    for t, facts, rt in rets:
+        if t == "False":
+            ok = ok and _same(facts, a, bb)
+        elif t in DOMQ(a, bb):
+            ok = ok and _not_same(facts, a, bb)
+        elif t in {f"{a} is not {bb} and {q}" for q in DOMQ(a, bb)} | {f"{q} if {a} is not {bb} else False" for q in DOMQ(a, bb)}:
+            pass
+        else:
+            ok = False
+    if ok and rets:
         r.ok(sd.fq)
     else:
         r.fail(sd.fq, Finding("C24.R3", sd.fq, "strict", "strictly_dominates must be `a is not b and dominates(a, b)`", sd.loc))
-    dm = idx.func(DOM, "DominanceInfo.dominates")
-    a, bb = dm.node.args.args[1].arg, dm.node.args.args[2].arg
-    body = [unparse(s) for s in dm.node.body if not (isinstance(s, ast.Expr) and isinstance(s.value, ast.Constant))]
-    if body == [f"return {a} in self._dominance[{bb}]"]:
-        r.ok(dm.fq)
-    else:
-        r.fail(dm.fq, Finding("C24.R3", dm.fq, "dominates", f"dominates(a, b) must be `a in self._dominance[b]`, found `{'; '.join(body)}`", dm.loc))
     sb = idx.func(DOM, "_strictly_dominates_block")
     a, bb = sb.node.args.args[0].arg, sb.node.args.args[1].arg
-    rets = [unparse(n) for n in walk_local(sb.node) if isinstance(n, ast.Return)]
-    if f"return DominanceInfo({a}.parent).strictly_dominates({a}, {bb})" in rets and "return False" in rets:
+    rets = _returns(sb)
+    ok = bool(rets)
+    for t, facts, rt in rets:
+        if t == "False":
+            ok = ok and _same(facts, a, bb)
+        elif t == f"DominanceInfo({a}.parent).strictly_dominates({a}, {bb})":
+            pass
+        elif t == f"DominanceInfo({a}.parent).dominates({a}, {bb})":
+            ok = ok and _not_same(facts, a, bb)
+        else:
+            ok = False
+    if ok:
         r.ok(sb.fq)
     else:
-        r.fail(sb.fq, Finding("C24.R3", sb.fq, "wrapper", "free function must forward (a, b) in order to DominanceInfo(a.parent).strictly_dominates", sb.loc))
-
+        r.fail(sb.fq, Finding("C24.R3", sb.fq, "wrapper", f"the free function must answer with DominanceInfo({a}.parent).strictly_dominates({a}, {bb}) (found {[t for t, _, _ in rets]})", sb.loc))
 
 def check(idx: Index, rep: Report, tier: str) -> str:
     rep.run(check_post_order, idx, rep)
